@@ -88,3 +88,21 @@ Proof.
       * cbn [spec_step]. exists None. done.
       * constructor.
 Qed.
+
+(** ** the bridge to the machine applies: on a machine whose register 0 holds
+    an empty queue, the step of any core operation is a specification step *)
+From PQV Require Import RefineMachine.
+
+Example machine_bridge_applies k (o : @qop item Z) :
+  let m : zmachine := setreg (init_machine 1) 0 k (empty_store 0) in
+  exists out s',
+    step ikeq (ihash 0) Z.leb Z.eqb alloc_lim m (op_of k 0 o)
+      = (setreg (reset_ticks m) 0 k s', out_of out) /\
+    spec_step ikeq Z.leb k (zal []) o out (zal (smap s')).
+Proof.
+  intros m.
+  destruct (machine_step_refines_thm ikeq (ihash 0) Z.leb Z.eqb alloc_lim (ikeq_ok 0) zle_ord_ok
+              m 0%nat k (empty_store 0) o eq_refl (empty_qinv ikeq Z.leb k 0))
+    as (out & s' & Hstep & _ & Hspec).
+  exists out, s'. split; [exact Hstep|exact Hspec].
+Qed.
